@@ -121,10 +121,20 @@ class Overlay:
             mp = os.path.join(self.dir, mod)
             if os.path.exists(hp) and os.path.exists(mp):
                 with open(mp, "a") as f:
-                    f.write('\n#[cfg(kani)]\n#[path = "%s"]\nmod verif_kani;\n' % hp)
+                    f.write('\n#[cfg(kani)]\n#[path = "%s"]\npub(crate) mod verif_kani;\n' % hp)
                 self.injected.append(mod)
+            # harnesses that need the dependency models live in harness/dep and are only
+            # injected into substitution overlays
+            dp = os.path.join(ROOT, "harness", "dep", h)
+            if self.kind.startswith("dep:") and os.path.exists(dp) and os.path.exists(mp):
+                with open(mp, "a") as f:
+                    f.write('\n#[cfg(kani)]\n#[path = "%s"]\npub(crate) mod verif_dep;\n' % dp)
         cargo = os.path.join(self.dir, "Cargo.toml")
         txt = open(cargo).read()
+        # benches (criterion -> tinytemplate -> serde_json) are irrelevant to the checks and would
+        # drag the real/model crates into test builds used for native replay
+        txt = re.sub(r"\[dev-dependencies\.criterion\][^\[]*", "", txt)
+        txt = re.sub(r"\[\[bench\]\][^\[]*", "", txt)
         # kani cfg is only known inside overlays; silence check-cfg noise
         if self.kind.startswith("dep:"):
             self.models = self.kind[4:].split(",")
@@ -163,7 +173,7 @@ RE_RESULT = re.compile(r"^VERIFICATION:- (SUCCESSFUL|FAILED)", re.M)
 RE_TIME = re.compile(r"^Verification Time: ([0-9.]+)s", re.M)
 RE_SUMMARY = re.compile(r"^ \*\* (\d+) of (\d+) failed", re.M)
 RE_COVER_SUMMARY = re.compile(r"^ \*\* (\d+) of (\d+) cover properties satisfied", re.M)
-RE_CHECK = re.compile(r"^Check \d+: (\S+)\n\s+- Status: (\w+)\n\s+- Description: \"(.*)\"\n\s+- Location: (.*)$", re.M)
+RE_CHECK = re.compile(r"^Check \d+: (.+)\n\s+- Status: (\w+)\n\s+- Description: \"(.*)\"\n\s+- Location: (.*)$", re.M)
 RE_FAILED = re.compile(r"^Failed Checks: (.*)\n(?:\s*File: \"(.*?)\", line (\d+), in (.*))?", re.M)
 
 
@@ -186,7 +196,8 @@ def parse_kani_log(text):
     for m in RE_FAILED.finditer(text):
         r["failed_checks"].append({"description": m.group(1), "file": m.group(2), "line": m.group(3), "in": m.group(4)})
     low = text.lower()
-    if "out of memory" in low or "std::bad_alloc" in low or "memory exhausted" in low or "Status: ERROR" in text:
+    if ("out of memory" in low or "std::bad_alloc" in low or "memory exhausted" in low or "Status: ERROR" in text
+            or re.search(r"CBMC failed with status (6|9|11|134|137)", text)):
         r["oom"] = True
     if re.search(r"^error(\[E\d+\])?:", text, re.M) and r["result"] is None:
         r["compile_error"] = True
@@ -216,7 +227,8 @@ class Harness:
 
     @property
     def qualified(self):
-        return "%s::verif_kani::%s" % (self.module, self.name) if self.module else "verif_kani::" + self.name
+        m = "verif_dep" if self.overlay.startswith("dep:") else "verif_kani"
+        return "%s::%s::%s" % (self.module, m, self.name) if self.module else "%s::%s" % (m, self.name)
 
 
 def kani_cmd(h, target_dir, extra=()):
@@ -350,7 +362,7 @@ def playback(h, overlay, target_dir, logdir, replay_path):
               % (h.name, h.module, h.overlay, repo_fingerprint()))
     open(replay_path, "w").write(header + test)
     vals = concrete_vals(tests[0])
-    if h.replay != "playback":
+    if h.replay not in ("playback", "stream"):
         return None, "playback not applicable", vals
     hpath = harness_file_for(h)
     modfile = None
@@ -407,6 +419,8 @@ def mod_to_path(modfile):
 def harness_file_for(h):
     for mod, hf in INJECT.items():
         if mod_to_path(mod) == h.module:
+            if h.overlay.startswith("dep:"):
+                return os.path.join(ROOT, "harness", "dep", hf)
             return os.path.join(ROOT, "harness", hf)
     if h.overlay == "cli":
         return os.path.join(ROOT, "harness", "cli.rs" if h.module == "" else h.module + ".rs")
